@@ -20,6 +20,8 @@ def jobs(tier):
             base = dict(entry=e.name, backend="snarkjs", tier=tier, pid=PID, catalogue="checks.cat_c14", weight=cf["n"])
             cfg = dict(n=cf["n"], r=cf["r"], guard=None, bound=bound)
             if "obs" in e.tags:
+                if e.name == "fxp_two_resolutions_obs" and cf["n"] > 8:
+                    continue        # three resolutions x four operations at 16 bits do not finish in 1500 s: bitlengths 4 and 8
                 js.append(dict(base, name="%s/%s/obs" % (e.name, tagc), analysis="obs", cfg=dict(cfg)))
                 continue
             if "assert" in e.tags:
